@@ -391,3 +391,35 @@ def option_payload(t):
         if s_[1][2] == "Continue":
             return _try_subject(s_[1][1])
     return None
+
+
+def result_ok_subject(t):
+    """X when t is `X.ok()` -- the call, or its desugared form φ(Some((X as Ok).0), None)"""
+    s_ = P.strip(t, calls=False)
+    if s_[0] == "call" and s_[1] == "std::result::Result::<T, E>::ok" and len(s_[2]) == 1:
+        return s_[2][0]
+    if s_[0] == "phi":
+        al = P.alts(s_)
+        somes = [a for a in al if a[0] == "agg" and a[1].endswith("Option::Some") and len(a[2]) == 1]
+        nones = [a for a in al if a[0] == "agg" and a[1].endswith("Option::None")]
+        if len(somes) == 1 and len(somes) + len(nones) == len(al):
+            p_ = P.strip(somes[0][2][0], calls=False)
+            if p_[0] == "field" and p_[1][0] == "variant" and p_[1][2] == "Ok":
+                return p_[1][1]
+    return None
+
+
+def ok_or_subject(t):
+    """X when t is `X.ok_or(e)` -- the call, or its desugared form φ(Ok((X as Some).0), Err(e))"""
+    s_ = P.strip(t, calls=False)
+    if s_[0] == "call" and s_[1] == "std::option::Option::<T>::ok_or" and len(s_[2]) == 2:
+        return s_[2][0]
+    if s_[0] == "phi":
+        al = P.alts(s_)
+        oks = [a for a in al if a[0] == "agg" and a[1].endswith("Result::Ok") and len(a[2]) == 1]
+        errs = [a for a in al if a[0] == "agg" and a[1].endswith("Result::Err")]
+        if len(oks) == 1 and len(oks) + len(errs) == len(al):
+            p_ = P.strip(oks[0][2][0], calls=False)
+            if p_[0] == "field" and p_[1][0] == "variant" and p_[1][2] == "Some":
+                return p_[1][1]
+    return None
